@@ -85,15 +85,16 @@ CHECKS = {
         "Trusted: harness Cronner/tick delivery, otto for the template family.",
    technique="Lean 4 proof (induction over event histories) over a hand-written hook machine + per-operation refinement check against the hooked Location model + differential correspondence with the real code (three cron set-ups)", ref="5 (C15)"),
  "C16": dict(
-   text="Lean 4 theorems (Props/C16.lean, 19) over executable models of cron.Cron (sorted timeline, pop/in-flight/re-schedule, suspend/pause/resume, timer arming) and of crolt's jobs/time buckets, proved by induction over arbitrary operation histories and audited on every run; "
+   text="Lean 4 theorems (Props/C16.lean) over executable models of cron.Cron (sorted timeline, pop/in-flight/re-schedule, suspend/pause/resume, timer arming) and of crolt's jobs/time buckets, proved by induction over arbitrary operation histories and audited on every run; "
         "comparison operators and decisive statements are regenerated from cron/cron.go and crolt/cron.go into Lean on every run; the models are tied to the code by differential runs (deterministic Add/Rem/replace histories, timed scenarios replayed with the recorded clock readings, "
         "crolt histories on real Bolt files with reopen points, crolt reached through go test -overlay) plus direct checks of each clause on the real outputs.",
-   note="Partial: liveness of the timer is proved only for histories without Rem / capacity-rejected Add (false otherwise: finding C16-rem-head-disarms); crolt one-shot-once is proved per work-loop visit; concurrency with the firing loop is modelled as interleaving of atomic steps under the Cron mutex; "
+   note="Since the four repairs in /repo (timer re-armed on every delivery, jobs in flight reachable by Rem/Add, server-side tid, non-negative jitter) liveness (timer_armed, no_starvation), removal and replacement while Fn runs, "
+        "tid isolation and one-run-per-occurrence with jitter are proved for all histories; crolt one-shot-once is proved per work-loop visit; wall-clock latencies are observed within tolerances, not proved; concurrency with the firing loop is modelled as interleaving of atomic steps under the Cron mutex; "
         "trusted: time.Timer contract and scheduling latency within tolerance, Bolt transaction atomicity, cursor behaviour under mutation, cronexpr.Next(now) > now, the go/ast extractor.",
    technique="Lean 4 proof over hand-written models with Go-source-regenerated definitions + differential correspondence (deterministic, timed trace validation, go test -overlay for package main)", ref="5 (C16)"),
  "C17": dict(
    text="Lean 4 theorems (Props/C17.lean) over an executable model of CachedLocations (Open/Get/Release/expire, Pending, !cacheTTL, CheckExistence): results through the System equal direct operation for every cache configuration, history and clock "
-        "(given reload faithfulness, the C06 statement, as explicit hypothesis); TTL independence; no creation under existence checking; single load for all schedules without the Open window, with negative theorems (decide witnesses) for the window, the boolean Pending, "
+        "(given reload faithfulness, the C06 statement, as explicit hypothesis, discharged for the State model: linear in full, indexed on a fragment, and refuted for the unrestricted indexed semantics by an expiry witness); TTL independence; no creation under existence checking; single load for all schedules without the Open window, with negative theorems (decide witnesses) for the window, the boolean Pending, "
         "marker erasure and the unchecked open. Tied to the code by twin Systems under TTL never/1ms/forever x CheckExistence x indexed/linear on the same histories (results, per-request load counts, cache membership), protocol-level interleavings with instance identity, "
         "and schedules forced through ctx.LogHook.",
    note="Partial: single-load is proved for window-free schedules only; four negative theorems are replayed on the code as known findings. ReloadOK (C06) is an explicit hypothesis; clock brackets are reconstructed for TTL 1 ms.",
